@@ -104,10 +104,10 @@ Proof. exact add_ok. Qed.
 Theorem C04_interval_set_of_list : forall xs : list iv, wf (of_list xs) /\ forall z, mem z (of_list xs) = existsb (inb z) xs.
 Proof. exact of_list_ok. Qed.
 (* head formulas are shared through Theory.add_formula under their representation string (FormulaToStr of theory/head.py, REGENERATED method by method:
-   Gen/FromReps.v hrep_*_gen).  It is injective on the head formulas of the model - weak and strong next, until and release, an atom and its classical
+   Gen/FromReps.v hrep_*_gen; literal pieces character by character).  It is injective on the head formulas of the model - weak and strong next, until and release, an atom and its classical
    complement, conjunction and disjunction, operands exchanged never share an entry - and the arguments of an atom are separated by a comma *)
 Require HeadRepsProofs.
-Theorem C04_head_formula_representation_is_injective : forall f g : HeadRepsProofs.hf, HeadRepsProofs.hrep f = HeadRepsProofs.hrep g -> f = g.
+Theorem C04_head_formula_representation_is_injective : forall f g : HeadRepsProofs.hf, HeadRepsProofs.flat (HeadRepsProofs.hrep f) = HeadRepsProofs.flat (HeadRepsProofs.hrep g) -> f = g.
 Proof. exact HeadRepsProofs.hrep_injective. Qed.
 Theorem C04_atom_arguments_are_separated_by_a_comma : FromReps.hrep_args_separator_gen = ","%string /\ FromReps.rep_args_separator_gen = ","%string.
 Proof. exact HeadRepsProofs.argument_separators. Qed.
